@@ -262,8 +262,12 @@ class ParamsGenerator:
       RuntimeError: If the tensors sharing the same buffer have different
         quantization settings.
     """
-    for tensors in self.buffer_to_tensors.values():
+    for buffer_idx, tensors in self.buffer_to_tensors.items():
       if len(tensors) <= 1:
+        continue
+      # Only constant buffers can be shared; a runtime tensor listed once per
+      # consumer must not be compared with itself.
+      if self.flatbuffer_model.buffers[buffer_idx].data is None:
         continue
       first_tensor = tensors[0]
       first_tensor_params = self.model_quant_results[
